@@ -51,6 +51,15 @@ type ctrState struct {
 	flagged   map[string]bool
 	cbCalls   int
 	cbErrs    int // clean-port calls that returned an error
+	// real wiring
+	natLines      []string // lines of the nat dump added by this container's SetupPortMapping
+	portFile      string
+	faults        int  // iptables faults injected so far
+	faultStopSeq  int  // seq at which the transient faults of this container were exhausted (0 = not yet)
+	passesAfter   int  // clean gc passes ended since faultStopSeq
+	cleanRecorded bool // port state seen completely clean after the faults stopped
+	orphaned      bool
+	lateFlagged   bool
 }
 
 type runtimeFake interface {
@@ -396,19 +405,112 @@ func (m *mon) callback(id string) error {
 	return nil
 }
 
-// callbackResult notes the result of the real clean-port function.
-func (m *mon) callbackResult(id string, err error) {
-	if err == nil {
-		return
-	}
+// callbackResult notes the result of the real clean-port function (whole entry-point call finished) and evaluates
+// the port state it left. injected = iptables faults injected during this call.
+func (m *mon) callbackResult(id string, err error, injected int) {
 	m.mu.Lock()
 	defer m.mu.Unlock()
-	m.seq++
-	m.ev("callback", id, "real-cleanup-error: "+err.Error(), false)
-	m.run.Count("cleanport_errors_returned", 1)
-	if cs := m.ctr[id]; cs != nil {
-		cs.cbErrs++
+	cs := m.ctr[id]
+	if err != nil {
+		m.seq++
+		m.ev("callback", id, fmt.Sprintf("real-cleanup-error (%d faults injected): %v", injected, err), false)
+		m.run.Count("cleanport_errors_returned", 1)
+		if cs != nil {
+			cs.cbErrs++
+		}
 	}
+	if cs == nil {
+		return
+	}
+	if injected > 0 {
+		if cs.faults == 0 && cs.spec.Ipt.transient() {
+			m.run.Count("containers_with_transient_iptables_faults", 1)
+		}
+		cs.faults += injected
+		m.run.Count("iptables_faults_injected_"+cs.spec.Ipt.Kind, int64(injected))
+		if f := cs.spec.Ipt; cs.faultStopSeq == 0 && ((f.Kind == "first-k" && cs.faults >= f.K) || f.Kind == "nth-once") {
+			cs.faultStopSeq = m.seq
+		}
+	}
+	if len(cs.natLines) == 0 {
+		return
+	}
+	m.orphanCheck(cs, fmt.Sprintf("after clean-port call #%d returned %v", cs.cbCalls, err))
+	// a clean-up attempt that met no fault and reported success must have cleaned everything
+	if err == nil && injected == 0 && cs.spec.PortFile == "" && !cs.lateFlagged {
+		n, first := cs.rulesLeft(m.natFn())
+		if pf := fileExists(cs.portFile); n > 0 && pf {
+			cs.lateFlagged = true
+			m.violate("cleanport-succeeded-without-fault-but-left-port-state", fmt.Sprintf("clean-port call #%d for %s met no "+
+				"fault and returned nil, but %d nat lines (e.g. %q) and the port file are still there", cs.cbCalls, id, n, first), id, nil)
+		}
+	}
+}
+
+// natHas reports how many of the container's nat lines (chains and rules its port mapping added) are installed.
+func (cs *ctrState) rulesLeft(nat string) (n int, first string) {
+	nat = "\n" + nat
+	for _, l := range cs.natLines {
+		if strings.Contains(nat, "\n"+l+"\n") {
+			if n == 0 {
+				first = l
+			}
+			n++
+		}
+	}
+	return
+}
+
+func (m *mon) ctrSorted() []*ctrState {
+	ids := make([]string, 0, len(m.ctr))
+	for id := range m.ctr {
+		ids = append(ids, id)
+	}
+	sort.Strings(ids)
+	out := make([]*ctrState, 0, len(ids))
+	for _, id := range ids {
+		out = append(out, m.ctr[id])
+	}
+	return out
+}
+
+func fileExists(path string) bool {
+	_, err := os.Lstat(path)
+	return err == nil
+}
+
+// orphanCheck: rules of the container installed but no port file any more: nothing will ever clean those rules
+// (cleanIPtables finds no port file and reports success). Only evaluated when no clean-up call can be in progress.
+// Containers whose port file was planted corrupt are exempt (their ports are unknown by construction). mu held.
+func (m *mon) orphanCheck(cs *ctrState, where string) {
+	if len(cs.natLines) == 0 || cs.spec.PortFile != "" || cs.orphaned || m.natFn == nil {
+		return
+	}
+	m.run.Count("orphan_checks_performed", 1)
+	n, first := cs.rulesLeft(m.natFn())
+	if n == 0 || fileExists(cs.portFile) {
+		return
+	}
+	cs.orphaned = true
+	state := 0
+	for _, f := range m.files {
+		if f.ID == cs.spec.ID && f.Container && f.present && (f.Kind == "statefile" || f.Kind == "statefile-symlink") {
+			if fileExists(f.Path) {
+				state++
+			}
+		}
+	}
+	sig := "dead-container-portmapping-orphaned-portfile-gone"
+	if cs.firstDead == 0 {
+		sig = "live-container-portmapping-orphaned-portfile-gone"
+	}
+	if m.p.PortDirGC {
+		sig += "-portdir-is-gc-dir"
+	}
+	m.violate(sig, fmt.Sprintf("%s: container %s: %d of %d nat lines of its port mapping are still installed (e.g. %q) but "+
+		"its port file %s is gone (%d state files left in the gc dirs); clean-port was called %d times, returned an error "+
+		"%d times, %d iptables faults injected (%+v): no later clean-up can find these rules", where, cs.spec.ID, n,
+		len(cs.natLines), first, cs.portFile, state, cs.cbCalls, cs.cbErrs, cs.faults, cs.spec.Ipt), cs.spec.ID, nil)
 }
 
 func classOr(s string) string {
@@ -420,7 +522,7 @@ func classOr(s string) string {
 
 func exists(f *tfile, nat string) bool {
 	if f.Kind == "portmapping" {
-		return strings.Contains(nat, f.rule)
+		return strings.Contains("\n"+nat, "\n"+f.rule+"\n")
 	}
 	_, err := os.Lstat(f.Path)
 	return err == nil
@@ -469,6 +571,43 @@ func (m *mon) snapshot(loop, phase string) {
 			m.run.Count("deletions_observed_"+f.Kind, 1)
 		}
 	}
+	if loop != "ip" && m.natFn != nil {
+		// the gc loop (the only caller of clean-port) is blocked in its sentinel inspect: no clean-up is in progress
+		for _, cs := range m.ctrSorted() {
+			m.orphanCheck(cs, "poll "+phase+" at seq "+fmt.Sprint(m.seq))
+		}
+	}
+}
+
+// afterFaults: containers whose transient iptables faults are exhausted: how many gc passes until their port state
+// (port file and every nat line) is clean. Where the port state dir is a gc dir (production wiring, opt-in) every
+// pass retries, so a dead container must be clean within 2 clean full passes; in the default wiring retries end
+// with the container's last state file, so the port state may legitimately stay (with its port file). mu held.
+func (m *mon) afterFaults(clean bool) {
+	nat := m.natFn()
+	for _, cs := range m.ctrSorted() {
+		if cs.faultStopSeq == 0 || cs.cleanRecorded || !cs.spec.Ipt.transient() {
+			continue
+		}
+		if clean {
+			cs.passesAfter++
+		}
+		n, first := cs.rulesLeft(nat)
+		pf := fileExists(cs.portFile)
+		if n == 0 && !pf {
+			cs.cleanRecorded = true
+			m.run.Count("transient_fault_containers_clean_afterwards", 1)
+			m.run.Max("max_gc_passes_until_clean_after_faults_stopped", int64(cs.passesAfter))
+			continue
+		}
+		if m.p.PortDirGC && cs.oblSeq > 0 && cs.passesAfter >= 3 && !cs.lateFlagged && !cs.orphaned {
+			cs.lateFlagged = true
+			m.violate("dead-container-portstate-not-cleaned-after-transient-fault", fmt.Sprintf("container %s is dead since seq %d, "+
+				"its %d transient iptables faults (%+v) were exhausted at seq %d, %d clean gc passes ended since; still there: "+
+				"port file=%v, %d nat lines (e.g. %q)", cs.spec.ID, cs.oblSeq, cs.faults, cs.spec.Ipt, cs.faultStopSeq,
+				cs.passesAfter, pf, n, first), cs.spec.ID, nil)
+		}
+	}
 }
 
 // roundEnd: the sentinel of loop l is being inspected at seq q: the loop has finished a pass and is blocked.
@@ -493,6 +632,9 @@ func (m *mon) roundEnd(l string, q int) {
 	}
 	m.run.Count("gc_rounds_observed_"+l, 1)
 	m.snapshot(l, "round")
+	if l == "gc" && m.natFn != nil {
+		m.afterFaults(clean)
+	}
 	// bounded liveness, counted in passes of this loop
 	for _, cs := range m.ctr {
 		if cs.oblSeq == 0 || cs.settled[l] {
@@ -718,6 +860,11 @@ func (m *mon) summarize() bool {
 	m.run.Count("containers_answered_dead", int64(deadC))
 	m.run.Count("containers_only_alive_answers", int64(liveC))
 	m.run.Count("containers_only_error_or_alive_answers", int64(errC))
+	for _, cs := range m.ctr {
+		if cs.faultStopSeq > 0 && !cs.cleanRecorded && !cs.orphaned {
+			m.run.Count("transient_fault_containers_portstate_left_with_portfile", 1)
+		}
+	}
 	m.run.Count("liveness_obligations", int64(obl))
 	m.run.Count("dead_containers_with_failing_portclean", int64(failing))
 	if m.p.Outage.Kind != "none" && m.outageState == 0 {
